@@ -169,6 +169,10 @@ def ensure_facts(quiet=False):
         d = os.path.join(FACTS, h)
         done = os.path.join(d, ".done")
         if os.path.exists(done):
+            try:
+                os.utime(d, None)      # LRU: pruning goes by directory mtime
+            except OSError:
+                pass
             return d, h
         if os.path.isdir(d):
             shutil.rmtree(d)
